@@ -1,7 +1,7 @@
 (* C14 — obligations relating the text regenerated from missions/filter.py on this run
    (Gen.C14_Extracted) to the model the theorems are about. *)
 From Coq Require Import ZArith List String Bool Lia.
-From AV Require Import lib.Dates model.C14_Model.
+From AV Require Import lib.Dates model.C14_Model model.C14_Sql proofs.C14_SqlProofs.
 From Gen Require Import C14_Extracted.
 Import ListNotations.
 Open Scope Z_scope.
@@ -40,3 +40,52 @@ Proof.
   intros a H. unfold normalised_attrs. simpl in *. tauto.
 Qed.
 Print Assumptions C14_link_plain_conjuncts.
+
+(* ---- missions/query.py ---- *)
+
+(* the conjuncts QueryBase._common_conditions and Query.to_sql build — start_date `>=`, end_date `<` midnight of
+   the following day, the sampling conjunct, every-n-th day anchored at start_date when given and at MIN(day)
+   otherwise, in this order after the filter conjunct — are the model's, for every query *)
+Theorem C14_link_query_conjuncts :
+  forall eo q, conds_of_shape src_shape eo q = Some (own_conds eo q).
+Proof. exact expected_shape_is_own_conds. Qed.
+Print Assumptions C14_link_query_conjuncts.
+
+Theorem C14_link_query_sql :
+  src_query_sql = expected_query_sql /\ src_limit_offset = expected_limit_offset
+  /\ src_where_clause = expected_where_clause /\ src_validations = expected_validations
+  /\ src_sample = expected_sample /\ src_nth_min = expected_nth_min /\ src_nth_base = expected_nth_base.
+Proof. repeat split; reflexivity. Qed.
+Print Assumptions C14_link_query_sql.
+
+(* QueryResult.from_row: which selected column becomes which result field *)
+Theorem C14_link_result_fields : src_result_fields = expected_result_fields.
+Proof. reflexivity. Qed.
+Print Assumptions C14_link_result_fields.
+
+(* CountQuery (count of s.id, joins only when there are conditions) and FrequentFlightQuery (GROUP BY the
+   direction-independent od_pair, ORDER BY the count DESC, LIMIT) *)
+Theorem C14_link_count_and_frequent : src_count = expected_count /\ src_frequent = expected_frequent.
+Proof. split; reflexivity. Qed.
+Print Assumptions C14_link_count_and_frequent.
+
+(* ---- missions/filter.py ---- *)
+
+(* a range bound is given unless it is None (0 and 0.0 are bounds) *)
+Theorem C14_link_range_guard : range_guard = expected_range_guard.
+Proof. reflexivity. Qed.
+Print Assumptions C14_link_range_guard.
+
+(* the three bounding-box branches: combined (either end), origin, destination — independent `if`s *)
+Theorem C14_link_bbox_branches :
+  bounding_box_subselect = expected_bounding_box_subselect /\ bounding_box_branches = expected_bounding_box_branches.
+Proof. split; reflexivity. Qed.
+Print Assumptions C14_link_bbox_branches.
+
+(* airport / country / continent: which column (origin, destination, either) each attribute constrains *)
+Theorem C14_link_spatial_columns :
+  airport_subselect = expected_airport_subselect /\ airport_branches = expected_airport_branches
+  /\ country_subselect = expected_country_subselect /\ country_branches = expected_country_branches
+  /\ continent_subselect = expected_continent_subselect /\ continent_branches = expected_continent_branches.
+Proof. repeat split; reflexivity. Qed.
+Print Assumptions C14_link_spatial_columns.
